@@ -28,22 +28,63 @@ class Arm:
         return [dec(t) for t in self.nodes_txt], [dec(t) for t in self.weights_txt]
 
     def doubles(self):
-        return [F(float(t)) for t in self.nodes_txt], [F(float(t)) for t in self.weights_txt]
+        return [F(as_double(t)) for t in self.nodes_txt], [F(as_double(t)) for t in self.weights_txt]
+
+    def floats(self):
+        return [as_double(t) for t in self.nodes_txt], [as_double(t) for t in self.weights_txt]
 
     def __repr__(self):
         return '%s%r@%d' % (self.family, self.key, self.lineno)
 
 
+def _is_literal_arith(node):
+    """numeric constants combined with + - * / and unary signs only"""
+    if isinstance(node, ast.Expression):
+        return _is_literal_arith(node.body)
+    if isinstance(node, ast.Constant):
+        return isinstance(node.value, (int, float)) and not isinstance(node.value, bool)
+    if isinstance(node, ast.UnaryOp) and isinstance(node.op, (ast.USub, ast.UAdd)):
+        return _is_literal_arith(node.operand)
+    if isinstance(node, ast.BinOp) and isinstance(node.op, (ast.Add, ast.Sub, ast.Mult, ast.Div)):
+        return _is_literal_arith(node.left) and _is_literal_arith(node.right)
+    return False
+
+
+def _exact(node, txt):
+    if isinstance(node, ast.Expression):
+        return _exact(node.body, txt)
+    if isinstance(node, ast.Constant):
+        return F(ast.get_source_segment(txt, node).replace('_', ''))  # all digits of the literal as written
+    if isinstance(node, ast.UnaryOp):
+        v = _exact(node.operand, txt)
+        return -v if isinstance(node.op, ast.USub) else v
+    a, b = _exact(node.left, txt), _exact(node.right, txt)
+    if isinstance(node.op, ast.Add):
+        return a + b
+    if isinstance(node.op, ast.Sub):
+        return a - b
+    if isinstance(node.op, ast.Mult):
+        return a * b
+    return a / b
+
+
 def dec(txt):
-    """Exact rational value of a Python numeric literal as written (sign included)."""
-    t = txt.strip().replace('_', '')
-    neg = t.startswith('-')
-    if neg:
-        t = t[1:].strip()
-    if t.startswith('(') and t.endswith(')'):
-        t = t[1:-1]
-    v = F(t)  # Fraction parses decimal and exponent notation exactly
-    return -v if neg else v
+    """Exact rational value of a table element as written: a numeric literal (all its digits) or an arithmetic
+    expression of literals (e.g. two lines joined by a missing comma: `-0.03... \n -0.005...` is ONE element)."""
+    t = txt.strip()
+    tree = ast.parse('(' + t + ')', mode='eval')
+    if not _is_literal_arith(tree):
+        raise ValueError('not literal arithmetic: %r' % txt)
+    return _exact(tree, '(' + t + ')')
+
+
+def as_double(txt):
+    """The double the interpreter computes for the element (expressions evaluated in double arithmetic)."""
+    t = txt.strip()
+    tree = ast.parse('(' + t + ')', mode='eval')
+    if not _is_literal_arith(tree):
+        raise ValueError('not literal arithmetic: %r' % txt)
+    return float(eval(compile(tree, '<table element>', 'eval'), {'__builtins__': {}}))
 
 
 def _key_of(test):
@@ -57,20 +98,20 @@ def _key_of(test):
 
 
 def _literal_texts(src, node):
-    """Source texts of the elements of a tuple / parenthesised tuple of numeric literals."""
+    """Source texts of the elements of a tuple of numeric literals (or arithmetic expressions of literals)."""
     if not isinstance(node, ast.Tuple):
         return None
     out = []
     for el in node.elts:
-        seg = ast.get_source_segment(src, el)
-        try:
-            v = ast.literal_eval(el)
-        except Exception:
+        if not _is_literal_arith(el):
             return None
-        if not isinstance(v, (int, float)):
-            return None
-        out.append(seg)
+        out.append(ast.get_source_segment(src, el))
     return out
+
+
+def _single_chain(fn):
+    chain = [s for s in fn.body if isinstance(s, ast.If)]
+    return chain[0] if len(chain) == 1 else None
 
 
 def parse_rules(repo):
@@ -78,7 +119,7 @@ def parse_rules(repo):
     with open(path) as f:
         src = f.read()
     tree = ast.parse(src)
-    arms, key_lists, problems = [], {}, []
+    arms, key_lists, problems, notes = [], {}, [], []
     for node in tree.body:
         if isinstance(node, ast.Assign) and len(node.targets) == 1 and isinstance(node.targets[0], ast.Name):
             nm = node.targets[0].id
@@ -89,12 +130,20 @@ def parse_rules(repo):
                     problems.append('key list %s is not a literal: %s' % (nm, e))
         if isinstance(node, ast.FunctionDef) and node.name in FAMILIES:
             fam = node.name
-            # find the if/elif chain
-            chain = [s for s in node.body if isinstance(s, ast.If)]
-            if len(chain) != 1:
+            # find the if/elif chain: in the function itself, or in a module-level helper it calls (a wrapper
+            # around the table must not blind the front end; what the wrapper returns is checked on the values)
+            cur = _single_chain(node)
+            if cur is None:
+                funcs = {f.name: f for f in tree.body if isinstance(f, ast.FunctionDef)}
+                called = [c.func.id for c in ast.walk(node) if isinstance(c, ast.Call) and isinstance(c.func, ast.Name)
+                          and c.func.id in funcs and c.func.id != fam]
+                cands = [funcs[n] for n in dict.fromkeys(called) if _single_chain(funcs[n]) is not None]
+                if len(cands) == 1:
+                    cur = _single_chain(cands[0])
+                    notes.append('%s: table found in helper %s' % (fam, cands[0].name))
+            if cur is None:
                 problems.append('%s: expected exactly one if/elif chain' % fam)
                 continue
-            cur = chain[0]
             while True:
                 key = _key_of(cur.test)
                 kind, nodes_txt, weights_txt, problem = None, None, None, None
